@@ -177,6 +177,13 @@ class ClosureV(Val):
         self.node, self.env = node, env
 
 
+class PoisonV(Val):
+    """The value of a local after a loop havoc when no arbitrary value of its kind can be constructed: unreadable."""
+
+    def __init__(self, name, kind):
+        self.name, self.kind = name, kind
+
+
 class ClassV(Val):
     def __init__(self, name, bases=()):
         self.name, self.bases = name, tuple(bases)
@@ -464,6 +471,7 @@ class Engine:
         self.counter = itertools.count()
         self.feas_timeout_ms = feas_timeout_ms
         self.errors = []
+        self.inlined_helpers = set()      # helpers of the same module / class executed in place (Interp.helper_closure)
         self.paths = 0
         self._feas_solver = None
 
@@ -570,6 +578,22 @@ def values_equal(a, b):
         return BoolVal(True)
     return BoolVal(False)
 
+
+
+def bound(p, fn):
+    """Evaluate fn() for a BOUND variable (the body of a quantifier a library contract is about to build, e.g. the element of the
+    iterable handed to all()/any()): a path decision taken inside would be a decision about the bound variable, and the formula
+    built from one branch would be asserted for every value.  Boolean operators are evaluated without branching (Interp.eval,
+    `quant` mode); anything else that still branches is Unsupported."""
+    pos = p.pos
+    p.quant = getattr(p, 'quant', 0) + 1
+    try:
+        r = fn()
+    finally:
+        p.quant -= 1
+    if p.pos != pos:
+        raise Unsupported('a path decision inside the element of a quantified closed form')
+    return r
 
 
 def assigned_names(stmts):
@@ -687,11 +711,57 @@ class Interp:
             return r.value
         return NONE
 
+    def helper_closure(self, name, receiver):
+        """A helper the function under contract calls and the contract does not know (typically the product of an `extract function`
+        refactoring): a plain module-level function of the same file (receiver None), or a plain method of the same class called on the
+        first parameter of the method under contract (receiver = that object).  Its real body is executed in place, like a nested
+        function: it is part of the verified text, every obligation downstream is generated from what it really does.  Only loop-free,
+        undecorated, non-generator helpers with a simple signature qualify; anything else stays Unsupported (ungenerated)."""
+        if not self.loops.get('inline_helpers', True):
+            return None
+        rel = getattr(self.x, 'relpath', None)
+        if not rel:
+            return None
+        from . import extract as _x
+        try:
+            _, tree = _x.parse_file(rel)
+        except Exception:
+            return None
+        scope = tree.body
+        if receiver is not None:
+            a0 = self.x.node.args.posonlyargs + self.x.node.args.args
+            if self.x.cls is None or not a0 or getattr(self, 'receiver0', None) is not receiver:
+                return None
+            scope = self.x.cls.body
+        found = [st for st in scope if isinstance(st, ast.FunctionDef) and st.name == name]
+        if len(found) != 1:
+            return None
+        fn = found[0]
+        if fn is self.x.node or fn.decorator_list or _is_generator(fn):
+            return None
+        a = fn.args
+        if a.vararg or a.kwarg or a.kwonlyargs or a.posonlyargs:
+            return None
+        depth = getattr(self, '_helper_depth', 0)
+        if depth > 3:
+            return None
+        for n in ast.walk(fn):
+            if isinstance(n, (ast.For, ast.While, ast.AsyncFor, ast.Global, ast.Nonlocal, ast.Try, ast.With)):
+                return None
+        clo = ClosureV(fn, ChainEnv({}))
+        clo.callable = True
+        clo.defaults = [self.eval(d, {}) for d in a.defaults]
+        self.eng.inlined_helpers.add(name if receiver is None else '%s.%s' % (self.x.cls.name, name))
+        if receiver is None:
+            return clo
+        return FuncV('helper.' + name, lambda p, args, kw, _c=clo, _o=receiver: self.call_closure(_c, [_o] + list(args), kw))
+
     def bind_defaults(self, env):
         """Parameters the harness leaves unbound get their default expression from the real signature
         (evaluated in the contract's globals, as at definition time)."""
         a = self.x.node.args
         pos = a.posonlyargs + a.args
+        self.receiver0 = env.get(pos[0].arg) if pos and self.x.cls is not None and pos[0].arg in env else None
         self.check_api_defaults(a, pos)
         for arg, d in zip(pos[len(pos) - len(a.defaults):], a.defaults):
             if arg.arg not in env:
@@ -809,7 +879,8 @@ class Interp:
             raise Unsupported('raise of %r' % (v,))
         elif isinstance(st, ast.Assert):
             v = self.eval(st.test, env)
-            p.oblige('assert@%d' % (st.lineno - self.x.node.lineno), 'assert', truthy(v))
+            # named by the ordinal among the function's assert statements (a line offset would move with every edit above it)
+            p.oblige('assert#%s' % str(self.stmt_ordinals.get(id(st), 'Assert#?')).split('#')[-1], 'assert', truthy(v))
         elif isinstance(st, ast.Try):
             self.exec_try(st, env)
         elif isinstance(st, ast.With):
@@ -904,7 +975,10 @@ class Interp:
                 else:
                     hv = self.loops.get('havoc_' + v)
                     if hv is None:
-                        raise Unsupported('loop modifies %r of unsupported kind %s' % (v, type(cur).__name__))
+                        # no arbitrary value of this kind can be made up: the name is poisoned instead -- it may be assigned again
+                        # (a throw-away target like `_`), any READ of it before that is Unsupported
+                        env[v] = PoisonV(v, type(cur).__name__)
+                        continue
                     env[v] = hv(self.path, cur)
 
     def _plain(self, v):
@@ -990,6 +1064,8 @@ class Interp:
         if spec is None:
             if self.accumulator_loop(st, orig_it, env):
                 return
+            if self.comprehension_spec_loop(st, it, env):
+                return
             raise Unsupported('for loop #%d without invariant' % n)
         p.assume(it.length >= 0)
         p.ghost['iter#%d' % n] = it      # the iterable of the contract loop, visible to its clauses (e.g. to read off the iteration order)
@@ -1039,6 +1115,64 @@ class Interp:
                 p.oblige('inv.preserve#%d/%s' % (n, nm), 'inv.preserve', f)
             raise BodyEnd('loop body done')
         p.assume(k == it.length)
+
+    def comprehension_spec_loop(self, st, it, env):
+        """The explicit-loop spelling of an impure set comprehension that has a `comprehension_loops` clause:
+            {elt for x in xs if c1 and not side_effect(...)}   <->   acc = set(); for x in xs: if c1: side_effect(...); acc.add(elt)
+        The clause (entry / preservation of an invariant over the loop index and the accumulated set) is about the iteration, not about
+        the spelling: when the comprehension it is keyed by is absent from the current source and this loop fills a local that holds the
+        empty set built by `set()`, the loop is run under the same clause and generates the same obligations.  The accumulator becomes
+        the heap object `spec.result(acc)`, so the body's real statements (add / remove / membership tests) act on it."""
+        cspecs = self.loops.get('comprehension_loops', {})
+        live = set(self.stmt_ordinals.values())
+        unused = [k for k in cspecs if k not in live and k.startswith('SetComp#')]
+        if len(unused) != 1:
+            return False
+        tag, spec = unused[0], cspecs[unused[0]]
+        names = {c.func.value.id for c in ast.walk(st) if isinstance(c, ast.Call) and isinstance(c.func, ast.Attribute)
+                 and c.func.attr == 'add' and isinstance(c.func.value, ast.Name)}
+        names = {nm for nm in names if nm in env and isinstance(env[nm], ObjV) and env[nm].cls == 'set' and env[nm].name == 'set()'
+                 and not env[nm].fields}
+        if len(names) != 1:
+            return False
+        name = names.pop()
+        marker = env[name]
+        if any(v is marker for nm, v in env.items() if nm != name):
+            return False        # the empty set has another name: replacing the local would lose the alias
+        p = self.path
+        p.assume(it.length >= 0)
+        if getattr(spec, 'on_entry', None):
+            spec.on_entry(p, env)
+        for nm, f in spec.invariant(EnvView(env, p), IntVal(0), spec.acc0):
+            p.oblige('inv.entry@%s/%s' % (tag, nm), 'inv.entry', f)
+        mod = (assigned_names(st.body) | assigned_names([ast.Expr(st.target)])) - {name}
+        self.havoc({v for v in mod if v in env}, env)
+        k = p.fresh_int('k')
+        p.assume(And(k >= 0, k <= it.length))
+        acc = spec.fresh_acc(p)
+        spec.havoc(p)
+        obj = env[name] = spec.result(p, acc)
+        for nm, f in spec.invariant(EnvView(env, p), k, acc):
+            p.assume(f)
+        if p.branch(k < it.length):
+            p.ghost['k'] = k
+            self.assign(st.target, it.at(k), env)
+            if it.facts:
+                p.assume(it.facts(k))
+            try:
+                self.exec_block(st.body, env)
+            except _Continue:
+                pass
+            except _Break:
+                raise Unsupported('break in a comprehension-clause loop')
+            if env.get(name) is not obj:
+                raise Unsupported('the accumulator %s is rebound inside the loop' % name)
+            content = spec.content(obj) if hasattr(spec, 'content') else obj.P
+            for nm, f in spec.invariant(EnvView(env, p), k + 1, content):
+                p.oblige('inv.preserve@%s/%s' % (tag, nm), 'inv.preserve', f)
+            raise PathEnd('comprehension-clause loop body done')
+        p.assume(k == it.length)
+        return True
 
     def values_equal(self, a, b):
         return values_equal(a, b)
@@ -1207,6 +1341,8 @@ class Interp:
             raise Unsupported('constant %r' % (c,))
         if isinstance(node, ast.Name):
             if node.id in env:
+                if isinstance(env[node.id], PoisonV):
+                    raise Unsupported('loop modifies %r of unsupported kind %s and it is read afterwards' % (node.id, env[node.id].kind))
                 return env[node.id]
             g = self.loops.get('globals', {})
             if node.id in g:
@@ -1222,6 +1358,9 @@ class Interp:
                     expr = None
                 if expr is not None:
                     return self.eval(expr, {})
+            h = self.helper_closure(node.id, None)
+            if h is not None:
+                return h
             raise Unsupported('unbound name %r' % node.id)
         if isinstance(node, ast.Tuple):
             return TupleV([self.eval(e, env) for e in node.elts])
@@ -1256,6 +1395,24 @@ class Interp:
                 if isinstance(v, IntV):
                     return IntV(bits.tz(v.t))
             return self.binop(node.op, self.eval(node.left, env), self.eval(node.right, env))
+        if isinstance(node, ast.BoolOp) and getattr(p, 'quant', 0):
+            # inside the element of a quantified closed form (see `bound`): no path decision may depend on the bound variable.
+            # `a or b` is the value IteV(truth(a), a, b); what evaluating b adds to the path condition is kept under its guard
+            is_or = isinstance(node.op, ast.Or)
+            cur = self.eval(node.values[0], env)
+            for nxt in node.values[1:]:
+                c = truthy(cur)
+                guard = Not(c) if is_or else c
+                n0 = len(p.pc)
+                p.pc.append(guard)
+                try:
+                    nv = self.eval(nxt, env)
+                finally:
+                    added = p.pc[n0 + 1:]
+                    del p.pc[n0:]
+                    p.pc.extend(Implies(guard, f) for f in added)
+                cur = IteV(c, cur, nv) if is_or else IteV(c, nv, cur)
+            return cur
         if isinstance(node, ast.BoolOp):
             vals = node.values
             cur = self.eval(vals[0], env)
@@ -1632,6 +1789,9 @@ class Interp:
             ga = o.fields.get('__getattr__')
             if ga is not None:
                 return ga(self.path, o, attr)
+            h = self.helper_closure(attr, o)
+            if h is not None:
+                return h
             raise Unsupported('attribute %s.%s' % (o.name or o.cls, attr))
         vm = self.loops.get('value_methods')
         if vm:
